@@ -233,6 +233,12 @@ func init() {
 		"context.Context.Deadline": func(fc *FnCtx, fr *Frame, st *State, instr ssa.Instruction, c *ssa.CallCommon, args []Val, rt types.Type) Val {
 			return havocRes(fc, st, "deadline", rt)
 		},
+		"trace.Tracer.Start":     modelTracerStart,
+		"trace.Span.End":         modelNoop,
+		"trace.Span.SetStatus":   modelNoop,
+		"trace.Span.AddEvent":    modelNoop,
+		"trace.Span.SetAttributes": modelNoop,
+		"trace.Span.RecordError": modelNoop,
 		"context.Context.Value": func(fc *FnCtx, fr *Frame, st *State, instr ssa.Instruction, c *ssa.CallCommon, args []Val, rt types.Type) Val {
 			return havocRes(fc, st, "ctxval", rt)
 		},
@@ -247,17 +253,36 @@ func modelCtxDerive(fc *FnCtx, fr *Frame, st *State, instr ssa.Instruction, c *s
 	// returns (ctx, cancel): derived ctx is a fresh reference; cancel is a no-op closure
 	ctx := fc.fresh("ctx", SInt)
 	fc.decls.fun("ctxParent", []string{SInt}, SInt)
-	fc.decls.fun("ctxBounded", []string{SInt}, SBool)
+	fc.decls.fun("sp_ctxBounded", []string{SInt}, SBool)
 	if p, ok := args[0].(Term); ok {
 		fc.assume(st, tEq(app(SInt, "ctxParent", ctx), p))
 	}
 	name := calleeModelName(c.StaticCallee())
 	if strings.HasSuffix(name, "WithTimeout") || strings.Contains(name, "WithDeadline") {
-		fc.assume(st, app(SBool, "ctxBounded", ctx))
+		fc.assume(st, app(SBool, "sp_ctxBounded", ctx))
 	} else if p, ok := args[0].(Term); ok {
-		fc.assume(st, tEq(app(SBool, "ctxBounded", ctx), app(SBool, "ctxBounded", p)))
+		fc.assume(st, tEq(app(SBool, "sp_ctxBounded", ctx), app(SBool, "sp_ctxBounded", p)))
 	}
 	return &TupleVal{Elems: []Val{ctx, &ClosureVal{Fn: nil}}}
+}
+
+// modelTracerStart: otel Tracer.Start(ctx, name, opts...) returns a context derived from ctx (same
+// deadline) and a span; spans are observability only.
+func modelTracerStart(fc *FnCtx, fr *Frame, st *State, instr ssa.Instruction, c *ssa.CallCommon, args []Val, rt types.Type) Val {
+	ctx := fc.fresh("ctx", SInt)
+	fc.decls.fun("ctxParent", []string{SInt}, SInt)
+	fc.decls.fun("sp_ctxBounded", []string{SInt}, SBool)
+	if len(args) > 1 {
+		if p, ok := args[1].(Term); ok {
+			fc.assume(st, tEq(app(SInt, "ctxParent", ctx), p))
+			fc.assume(st, tEq(app(SBool, "sp_ctxBounded", ctx), app(SBool, "sp_ctxBounded", p)))
+		}
+	}
+	return &TupleVal{Elems: []Val{ctx, fc.fresh("span", SInt)}}
+}
+
+func modelNoop(fc *FnCtx, fr *Frame, st *State, instr ssa.Instruction, c *ssa.CallCommon, args []Val, rt types.Type) Val {
+	return havocRes(fc, st, "noop", rt)
 }
 
 // modelErrorf: fmt.Errorf(format, args...) with %w operands.
